@@ -100,7 +100,10 @@ class LinearPaths:
     idx1 = 1 if first_redundant else 0
     idx2 = -1 if last_redundant else None
     for sn_et in segpath[idx1:idx2]:
-      self.segment(sn_et.segment).disconnect()
+      s = self.segment(sn_et.segment)
+      # (a placeholder segment is gone with the last line referring to it)
+      if s is not None:
+        s.disconnect()
       if self._progress:
         self._progress_log("merge_linear_paths", 0.05)
     return self
